@@ -1,11 +1,13 @@
 ------------------------------ MODULE TraceMCE ------------------------------
 (* C->S binding for C03.  A trace is [id, args, kinds, target, ev]; ev has one event
-   [res, n, units, tab, atext]:
+   [res, n, units, tab, atext, after] (tab and atext in the first event only); a second event is the same call repeated
+   with the same argument objects:
      res    projected return value of the call with the list-shaped arguments (tree of "v" nodes,
             or one "x" node when the call raised)
      n      units created by that call;  units: their texts in creation order
      tab    the single-channel calls TLC's expected tree names: [c combo, r projected result, n units]
      atext  canonical text of every atom
+     after  the caller's argument objects projected again after the call
    target = [kind "ctor"|"expr"|"out", cls, rate, expr, nfixed, audio, margs]
    Verdict clauses: law (tree = Expand with the measured single-channel results substituted),
    count (units created = sum over the combinations), op_direct (binary operators: a combination with a unit
@@ -64,20 +66,20 @@ OpText(t, c, atext) ==
 
 GenericWhy(t, e) ==
     LET exp == Expand(t.args) IN
-    IF ~HasAll(e.tab, exp) THEN "missing_single_calls"
+    IF ~HasAll(t.ev[1].tab, exp) THEN "missing_single_calls"
     ELSE LET cs == Leaves(exp)
-             exc == {i \in 1..Len(cs) : Lookup(e.tab, cs[i].c).r.k = "x"}
+             exc == {i \in 1..Len(cs) : Lookup(t.ev[1].tab, cs[i].c).r.k = "x"}
              rel == {i \in exc : ~NumbersOnly(t, cs[i].c)} IN
-         IF e.res.k = "x" /\ (exc = {} \/ e.res # Lookup(e.tab, cs[CHOOSE i \in exc : \A y \in exc : i <= y].c).r) THEN "law"
-         ELSE IF e.res.k # "x" /\ (rel # {} \/ ~Agree(t, e.res, exp, e.tab)) THEN "law"
-         ELSE IF exc = {} /\ e.n # SumSeq([i \in 1..Len(cs) |-> Lookup(e.tab, cs[i].c).n]) THEN "count"
+         IF e.res.k = "x" /\ (exc = {} \/ e.res # Lookup(t.ev[1].tab, cs[CHOOSE i \in exc : \A y \in exc : i <= y].c).r) THEN "law"
+         ELSE IF e.res.k # "x" /\ (rel # {} \/ ~Agree(t, e.res, exp, t.ev[1].tab)) THEN "law"
+         ELSE IF exc = {} /\ e.n # SumSeq([i \in 1..Len(cs) |-> Lookup(t.ev[1].tab, cs[i].c).n]) THEN "count"
          ELSE IF t.target.kind = "ctor"
-                 /\ \E i \in 1..Len(cs) : \/ Lookup(e.tab, cs[i].c).n # 1
-                                          \/ Lookup(e.tab, cs[i].c).r # Val(LeafText(t.target, cs[i].c, e.atext))
+                 /\ \E i \in 1..Len(cs) : \/ Lookup(t.ev[1].tab, cs[i].c).n # 1
+                                          \/ Lookup(t.ev[1].tab, cs[i].c).r # Val(LeafText(t.target, cs[i].c, t.ev[1].atext))
               THEN "direct"
          ELSE IF t.target.kind = "expr" /\ t.target.special >= 0 /\ Len(t.args) = 2
                  /\ \E i \in 1..Len(cs) : OpJudged(t, cs[i].c)
-                                          /\ Lookup(e.tab, cs[i].c).r # Val(OpText(t, cs[i].c, e.atext))
+                                          /\ Lookup(t.ev[1].tab, cs[i].c).r # Val(OpText(t, cs[i].c, t.ev[1].atext))
               THEN "op_direct"
          ELSE "ok"
 
@@ -86,12 +88,12 @@ GenericWhy(t, e) ==
 OneLevelWhy(t, e) ==
     LET rows == Rows(t.args) IN
     IF ~IsList(t.args[1]) THEN "illformed"
-    ELSE IF Len(e.tab) # Len(rows) \/ \E i \in 1..Len(rows) : e.tab[i].row # rows[i] THEN "missing_single_calls"
-    ELSE LET exc == {i \in 1..Len(rows) : e.tab[i].r.k = "x"}
-             expected == IF exc = {} THEN List([i \in 1..Len(rows) |-> e.tab[i].r])
-                         ELSE e.tab[CHOOSE i \in exc : \A y \in exc : i <= y].r IN
+    ELSE IF Len(t.ev[1].tab) # Len(rows) \/ \E i \in 1..Len(rows) : t.ev[1].tab[i].row # rows[i] THEN "missing_single_calls"
+    ELSE LET exc == {i \in 1..Len(rows) : t.ev[1].tab[i].r.k = "x"}
+             expected == IF exc = {} THEN List([i \in 1..Len(rows) |-> t.ev[1].tab[i].r])
+                         ELSE t.ev[1].tab[CHOOSE i \in exc : \A y \in exc : i <= y].r IN
          IF e.res # expected THEN "law"
-         ELSE IF exc = {} /\ e.n # SumSeq([i \in 1..Len(rows) |-> e.tab[i].n]) THEN "count"
+         ELSE IF exc = {} /\ e.n # SumSeq([i \in 1..Len(rows) |-> t.ev[1].tab[i].n]) THEN "count"
          ELSE "ok"
 
 OutWhy(t, e) ==
@@ -99,7 +101,7 @@ OutWhy(t, e) ==
         zeros == {a \in 1..Len(t.kinds) : t.kinds[a] = "z"}
         oargs == OutArgs(SubSeq(t.args, 1, tg.nfixed), t.args[tg.nfixed + 1], zeros, 0, tg.audio)
         cs == Leaves(Expand(oargs))
-        AText(a) == IF a = 0 THEN SilenceInput ELSE e.atext[a]
+        AText(a) == IF a = 0 THEN SilenceInput ELSE t.ev[1].atext[a]
         expOuts == [i \in 1..Len(cs) |->
                       tg.cls \o "." \o tg.rate \o "#0(" \o Join([j \in 1..Len(cs[i].c) |-> AText(cs[i].c[j])]) \o ")"]
         gotOuts == SelectSeq(e.units, LAMBDA s : s # SilenceText)
@@ -111,9 +113,15 @@ OutWhy(t, e) ==
     ELSE IF used /\ nsil < 1 THEN "silence"
     ELSE "ok"
 
+\* expansion is a function of the argument VALUES and leaves the arguments as they were: after the call the
+\* caller's argument objects still project to the request's trees (Unchanged in MCE.tla); event 2 is the same
+\* call made again with the very same argument objects in the same build - it is judged by the same clauses
+\* against the same single-channel results (aliasing across calls)
 Step == /\ l >= 1 /\ l <= Len(Traces[tid].ev)
         /\ LET t == Traces[tid]  e == t.ev[l]
                why == IF ~WellFormedCase(t) THEN "illformed"
+                      ELSE IF ~Unchanged(t.args, e.after, t.ev[1].atext)
+                           THEN (IF l = 1 THEN "args_mutated" ELSE "args_mutated_by_second_call")
                       ELSE IF t.target.kind = "out" THEN OutWhy(t, e)
                       ELSE IF t.target.level = "one" THEN OneLevelWhy(t, e) ELSE GenericWhy(t, e) IN
            IF why = "ok" THEN l' = l + 1
